@@ -462,7 +462,7 @@ impl RWorld {
                 let r = guard!(self, c.can_send_message(ch, size));
                 tbool(r)
             }
-            20..=29 | 32..=38 => {
+            20..=29 | 32..=39 | 42 => {
                 if self.server.is_none() {
                     return unresolved_tree();
                 }
@@ -546,6 +546,13 @@ impl RWorld {
                 s.disconnect_local_client(id, c);
                 status_tree(c)
             }
+            39 => {
+                let (id, k) = (v[1].as_u64().unwrap(), v[2].as_u64().unwrap());
+                let c = match self.conns.get_mut(&k) { Some(c) => c, None => return unresolved_tree() };
+                let r = guard!(self, s.process_local_client(id, c));
+                l(vec![tbool(r.is_ok()), status_tree(c)])
+            }
+            42 => l(vec![nu(s.connected_clients()), tbool(s.has_connections())]),
             32 => {
                 let (id, ch) = (v[1].as_u64().unwrap(), v[2].as_u64().unwrap() as u8);
                 let m = Bytes::copy_from_slice(v[3].as_b().unwrap());
